@@ -9,6 +9,9 @@ INT_TYPES = {'int', 'int8', 'int16', 'int32', 'int64', 'uint', 'uint8', 'uint16'
              'uintptr', 'byte', 'rune'}
 
 
+STD_PKGS = {'bytes': 'bytes', 'io': 'io', 'big': 'math/big', 'errors': 'errors', 'fmt': 'fmt', 'strings': 'strings', 'sort': 'sort'}
+
+
 class SpecError(Exception):
     pass
 
@@ -89,6 +92,8 @@ class Ev:
             return self.imports[name]
         if name in self.prog.aliases:
             return self.prog.aliases[name]
+        if name in STD_PKGS:
+            return STD_PKGS[name]
         return None
 
     def const(self, pkg, name):
@@ -209,7 +214,8 @@ class Ev:
             if c is not None:
                 return c
             tk = x.path + '.' + name
-            if tk in self.types.t:
+            if tk in self.types.t or name[:1].isupper():
+                self.types.get(tk)
                 return TypeRef(tk)
             raise SpecError('unknown %s.%s' % (x.path, name))
         return self.select(x, name)
